@@ -48,6 +48,20 @@ AGG = [
     "N = #sum { Z : s(Z) }; K = #max { Z : t(Z) }",
     "K = #max { Z : t(Z) }; N = #sum { Z : s(Z) }",
     "M = #count { Z : s(Z) }; K = #min { Z : t(Z) }",
+    "N = #sum { Z : s(Z), Z > X }",
+    "M = #count { Z : s(Z), Z != Y }",
+    "X <= #sum+ { Z : t(Z), Z < Y }",
+    "X - N > 0",
+    "X = 3 - N",
+    "2*N < X",
+    "N = #sum+ { Z : s(Z) }; X - N > 1",
+    "M = #sum+ { Z,t : t(Z) }; Y = 2 - M",
+    "N = #sum { Z : s(Z) }; N*X > 1",
+    "M = #count { Z : s(Z) }; M*Y = 2",
+    "N*X > 1",
+    "N < X",
+    "N*Y = 2",
+    "N*N > X",
     "N + K = X",
     "N + K > 2",
     "M + K = 3",
